@@ -89,7 +89,7 @@ def objLists (j : Json) : List (Comp.Name × List Comp.Name) :=
   | .error _ => []
 
 def modOf (inp dig : Json) : Mod :=
-  { mode := charsD inp "mode", visFile := charsD (fieldD inp "cfg" Json.null) "vis" == "file".toList, schemas := namesD inp "schemas", items := (listD dig "items").map itemOf,
+  { mode := charsD inp "mode", visFile := charsD (fieldD inp "cfg" Json.null) "vis" == "file".toList, schemas := namesD inp "schemas", refd := (match inp.getObjVal? "refd" with | .ok (.arr _) => some (namesD inp "refd") | _ => none), items := (listD dig "items").map itemOf,
     imports := objLists (fieldD dig "imports" Json.null), mentions := objLists (fieldD dig "mentions" Json.null),
     constMentions := objLists (fieldD dig "const_mentions" Json.null) }
 
